@@ -67,6 +67,9 @@ type provCtx struct {
 	depth  int
 	// skipped callers (outside region), for evidence
 	Skipped map[string]bool
+	// resolve loads of struct fields (other than device state / configuration)
+	// to the union of all values stored into that field anywhere in the module
+	resolveLocalFields bool
 }
 
 const maxPatterns = 64
@@ -268,7 +271,19 @@ func fieldName(fa *ssa.FieldAddr) string {
 func (c *provCtx) evalLoad(addr ssa.Value) []pattern {
 	switch a := addr.(type) {
 	case *ssa.FieldAddr:
-		return []pattern{{{Kind: "field", S: fieldName(a)}}}
+		fnm := fieldName(a)
+		if c.resolveLocalFields && !strings.Contains(fnm, ".State.") && !strings.HasPrefix(fnm, "program.Config.") {
+			if fv := fieldVarOf(a); fv != nil {
+				var out []pattern
+				for _, st := range storesToField(c.p, fv) {
+					out = append(out, c.eval(st.Val)...)
+				}
+				if len(out) > 0 {
+					return dedupPatterns(out)
+				}
+			}
+		}
+		return []pattern{{{Kind: "field", S: fnm}}}
 	case *ssa.Alloc:
 		return c.evalCell(a)
 	case *ssa.FreeVar:
